@@ -1679,3 +1679,111 @@ def json_Unmarshal2(ex, st, args, ctx):
 
 
 BASE.update({'(*bytes.Buffer).ReadFrom': buffer_ReadFrom, 'encoding/json.Unmarshal': json_Unmarshal2})
+
+
+# ------------------------------------------------------------------------------------------ CLI (C19): urfave/cli context, os, fmt.Println, repo-level API stubs
+def cli_flag(kind):
+    def f(ex, st, args, ctx):
+        used('cli.Context.String/Uint/Int/Bool...: arbitrary flag values')
+        name = name_of(args[1])
+        key = 'flag:' + name
+        if key in st.draws:
+            v = st.draws[key]
+        elif kind == 'string':
+            v = z3.String(key)
+        elif kind == 'bool':
+            v = z3.Bool(key)
+        else:
+            v = z3.BitVec(key, 64)
+            if name in ('batch-size', 'tree-depth'):
+                st.pc.append(z3.ULE(v, bvval(2, 64)))      # bound: dimensions <= 2 in the CLI harness
+        st.draws[key] = v
+        return Str(v) if kind == 'string' else v
+    return f
+
+
+def fmt_Println(ex, st, args, ctx):
+    used('fmt.Println: one write to standard output')
+    vals = ex.cells(st, args[0]) if args[0] is not NIL else []
+    st.events.append(('stdout', tuple(vals)))
+    return (bvval(1, 64), NIL)
+
+
+def fork_result(tag, okval, events_ok=None):
+    """stub for a repo-level API: succeeds (tagged event) or fails"""
+    def f(ex, st, args, ctx):
+        used('%s: succeeds or returns an error (contract stub at the API boundary)' % tag)
+        c = z3.Bool(ex.newsym(tag + '_ok'))
+        st.draws['%s_ok#%d' % (tag, ex.fresh)] = c
+
+        def ok(s2):
+            s2.events.append(('api', tag, 'ok', tuple(args)))
+            return okval(ex, s2, args) if callable(okval) else okval
+
+        def bad(s2):
+            s2.events.append(('api', tag, 'err', tuple(args)))
+            err = Iface(-1, Opaque('error', msg=S(tag + ' failed'), origin=ctx['pos']))
+            v = okval(ex, s2, args) if callable(okval) else okval
+            if isinstance(v, tuple):
+                return tuple([NIL] * (len(v) - 1)) + (err,)
+            return err
+        return Forks([(c, ok, None), (z3.Not(c), bad, None)])
+    return f
+
+
+def new_ps(ex, st, args):
+    tid = ex.tid_by_str.get('worldcoin/gnark-mbu/prover.ProvingSystem')
+    z = ex.zero(tid)
+    f = list(z.f)
+    f[0], f[1] = z3.BitVec(ex.newsym('treeDepth'), 32), z3.BitVec(ex.newsym('batchSize'), 32)
+    f[2], f[3], f[4] = Opaque('pk', sys='file', oid=new_oid()), Opaque('vk', sys='file', oid=new_oid()), Opaque('cs', sys='file', oid=new_oid())
+    return (Ptr(st.alloc(Struct(f))), NIL)
+
+
+def cli_stubs():
+    P = 'worldcoin/gnark-mbu/prover.'
+    proof = lambda ex, st, a: (Ptr(st.alloc(Struct([Opaque('proof', sys='x', witness=None, coords=None)]))), NIL)
+    return {
+        '(*github.com/urfave/cli/v2.Context).String': cli_flag('string'), '(*github.com/urfave/cli/v2.Context).Uint': cli_flag('int'),
+        '(*github.com/urfave/cli/v2.Context).Int': cli_flag('int'), '(*github.com/urfave/cli/v2.Context).Int64': cli_flag('int'),
+        '(*github.com/urfave/cli/v2.Context).Bool': cli_flag('bool'),
+        'fmt.Println': fmt_Println,
+        P + 'ReadSystemFromFile': fork_result('ReadSystemFromFile', new_ps), P + 'ReadSystemFromS3': fork_result('ReadSystemFromS3', new_ps),
+        P + 'SetupInsertion': fork_result('SetupInsertion', new_ps), P + 'SetupDeletion': fork_result('SetupDeletion', new_ps),
+        P + 'ImportInsertionSetup': fork_result('ImportInsertionSetup', new_ps), P + 'ImportDeletionSetup': fork_result('ImportDeletionSetup', new_ps),
+        P + 'BuildR1CSInsertion': fork_result('BuildR1CSInsertion', lambda ex, st, a: (Opaque('cs', sys='c', oid=new_oid()), NIL)),
+        P + 'BuildR1CSDeletion': fork_result('BuildR1CSDeletion', lambda ex, st, a: (Opaque('cs', sys='c', oid=new_oid()), NIL)),
+        P + 'ExtractLean': fork_result('ExtractLean', lambda ex, st, a: (Str(z3.String(ex.newsym('lean'))), NIL)),
+        '(*' + P + 'ProvingSystem).ProveInsertion': fork_result('ProveInsertion', proof), '(*' + P + 'ProvingSystem).ProveDeletion': fork_result('ProveDeletion', proof),
+        '(*' + P + 'ProvingSystem).VerifyInsertion': fork_result('VerifyInsertion', NIL), '(*' + P + 'ProvingSystem).VerifyDeletion': fork_result('VerifyDeletion', NIL),
+        '(*' + P + 'ProvingSystem).WriteRawTo': fork_result('WriteRawTo', lambda ex, st, a: (z3.BitVec(ex.newsym('n'), 64), NIL)),
+        '(*' + P + 'ProvingSystem).ExportSolidity': fork_result('ExportSolidity', NIL),
+        '(*' + P + 'InsertionParameters).ComputeInputHashInsertion': lambda ex, st, a, c: NIL,
+        '(*' + P + 'DeletionParameters).ComputeInputHashDeletion': lambda ex, st, a, c: NIL,
+        'os.Create': fork_result('os.Create', lambda ex, st, a: (Opaque('osfile', oid=new_oid()), NIL)),
+        'opaque:osfile.Close': lambda ex, st, a, c: NIL, '(*os.File).Close': lambda ex, st, a, c: NIL,
+        '(*os.File).WriteString': fork_result('WriteString', lambda ex, st, a: (bvval(1, 64), NIL)),
+        'opaque:cs.WriteTo': fork_result('cs.WriteTo', lambda ex, st, a: (bvval(1, 64), NIL)), 'opaque:vk.WriteTo': fork_result('vk.WriteTo', lambda ex, st, a: (bvval(1, 64), NIL)),
+        'global:os.Stdin': lambda ex, st: Opaque('stdin'), 'global:os.Stdout': lambda ex, st: Opaque('stdout'), 'global:os.Args': lambda ex, st: Slice(None, 0, 0, 0),
+        'worldcoin/gnark-mbu/server.Run': lambda ex, st, a, c: (st.events.append(('api', 'server.Run', 'ok', ())) or Struct([Chan(new_oid()), Chan(new_oid())])),
+        '(*worldcoin/gnark-mbu/server.RunningJob).RequestStop': lambda ex, st, a, c: st.events.append(('api', 'RequestStop', 'ok', ())),
+        '(*worldcoin/gnark-mbu/server.RunningJob).AwaitStop': lambda ex, st, a, c: st.events.append(('api', 'AwaitStop', 'ok', ())),
+        'os/signal.Notify': lambda ex, st, a, c: None, 'time.Now': lambda ex, st, a, c: Opaque('time'), 'time.Since': lambda ex, st, a, c: bvval(0, 64),
+        'worldcoin/gnark-mbu/logging.SetJSONOutput': lambda ex, st, a, c: None,
+        'worldcoin/gnark-mbu/poseidon_tree.NewTree': lambda ex, st, a, c: Struct([Iface(-2, Opaque('tree'))]),
+        '(*worldcoin/gnark-mbu/poseidon_tree.PoseidonTree).Root': lambda ex, st, a, c: Big(z3.BitVec(ex.newsym('root'), BIG)),
+        '(*worldcoin/gnark-mbu/poseidon_tree.PoseidonTree).Update': lambda ex, st, a, c: Slice(None, 0, 0, 0),
+        'github.com/consensys/gnark/logger.Set': lambda ex, st, a, c: None,
+    }
+
+
+def conv_bytes2string(ex, st, x):
+    return Str(z3.String(ex.newsym('string_of_bytes')))
+
+
+def conv_string2bytes(ex, st, x):
+    o = st.alloc(Opaque('bytes_of_string', src=x))
+    return Slice(o, 0, z3.BitVec(ex.newsym('len'), 64), 0)
+
+
+BASE.update({'conv:bytes2string': conv_bytes2string, 'conv:string2bytes': conv_string2bytes})
